@@ -1,7 +1,7 @@
 """Seeded generator of RapidPro flow definitions in the export schema ("foreign-style"), inside the
 part of the schema the sheet format can express (DESIGN §5 C04 `Expressible`):
 every node reachable from the first; conditional categories connected; one case per category, in
-category order; single-argument or no-argument tests; group splits with one group per case and
+category order; single-argument or no-argument tests; add/remove-group actions with 1-3 groups; group splits with one group per case and
 compiler-style category names; webhooks without headers; no pass-through-only action types.
 Graph shapes: trees, joins, cycles, self loops.  Texts over an alphabet with separators, escapes,
 newlines and non-ASCII (trimmed, template-free — C07's representable domain)."""
@@ -72,7 +72,10 @@ class FlowGen:
         elif t in ("add_contact_groups", "remove_contact_groups"):
             # group names may carry the cell separators and the escape character (the exported cell is a
             # one-element list: it must be escaped like any other list cell)
-            a["groups"] = [{"name": rng.choice(["GrpA", "GrpB", "Grp C", "GrpA", "Parents; Teachers", "Staff|Volunteers", "a\\b"]), "uuid": None}]
+            # several groups in one action (1-3; the same name may come twice): every name is exported, the first
+            # group's uuid travels in obj_id, the others are referenced by name (uuids filled in by `build`, one per name)
+            a["groups"] = [{"name": rng.choice(["GrpA", "GrpB", "Grp C", "GrpA", "Parents; Teachers", "Staff|Volunteers", "a\\b"]), "uuid": None}
+                           for _ in range(rng.choice([1, 1, 1, 2, 2, 3]))]
         elif t == "set_run_result":
             a["name"] = rng.choice(["answer", "score"])
             a["value"] = self.text(f"r{k}")
